@@ -1380,8 +1380,9 @@ function translate_select_expression(select_expression) {
 
 
 function separate_string_literals(rbql_expression) {
-    // The regex consists of 3 almost identicall parts, the only difference is quote type
-    var rgx = /('(\\(\\\\)*'|[^'])*')|("(\\(\\\\)*"|[^"])*")|(`(\\(\\\\)*`|[^`])*`)/g;
+    // The regex consists of 3 almost identicall parts, the only difference is quote type.
+    // A quote is escaped by an ODD run of backslashes in front of it: the run is matched from its first backslash only (an escaped backslash followed by the closing quote ends the literal)
+    var rgx = /('((?<!\\)\\(\\\\)*'|[^'])*')|("((?<!\\)\\(\\\\)*"|[^"])*")|(`((?<!\\)\\(\\\\)*`|[^`])*`)/g;
     var match_obj = null;
     var format_parts = [];
     var string_literals = [];
